@@ -51,7 +51,7 @@ def corrections(darsia, rng, shape, workdir):
     base = np.random.RandomState(1).rand(H, W, 3)
     out.append(("drift-inactive", darsia.DriftCorrection(base, config={"active": False}), True, False))
     try:
-        out.append(("colour-inactive", darsia.ColorCorrection(config={"active": False}), True, True))
+        out.append(("colour-inactive", darsia.ColorCorrection(config={"active": False, "roi": [[0, 0], [H - 1, 0], [H - 1, W - 1], [0, W - 1]]}), True, True))
     except Exception:
         pass
     ic = darsia.IlluminationCorrection()
@@ -70,14 +70,19 @@ def corrections(darsia, rng, shape, workdir):
     return out
 
 
-def make_input(darsia, rng, kind, shape, dtype):
+def make_input(darsia, rng, kind, shape, dtype, layout="C"):
+    """layout = memory layout of the caller's array (C, F, or a moved-axis view): the values are what counts"""
     H, W = shape
     rs = np.random.RandomState(rng.randrange(10 ** 6))
 
     def data(s):
-        if dtype == "uint8":
-            return rs.randint(0, 255, size=s).astype(np.uint8)
-        return rs.rand(*s).astype(dtype)
+        a = rs.randint(0, 255, size=s).astype(np.uint8) if dtype == "uint8" else rs.rand(*s).astype(dtype)
+        if layout == "F":
+            a = np.asfortranarray(a)
+        elif layout == "moved" and len(s) >= 3:
+            # e.g. a stack of frames (T, H, W[, C]) viewed as (H, W, T[, C]): a non-contiguous view
+            a = np.moveaxis(np.ascontiguousarray(np.moveaxis(a, 2, 0)), 0, 2)
+        return a
 
     kw = dict(dimensions=[0.5 * H, 0.25 * W], origin=[1.0, 2.0])
     if kind == "array":
@@ -153,12 +158,16 @@ def run(ck, replay=None):
                 for sk in subkinds:
                     if colour_only and sk in ("array-scalar", "scalar", "series-scalar"):
                         continue
-                    dtype = rng.choice(["float64", "float32", "uint8"] if name.startswith(("type", "colour")) else ["float64", "float32"])
-                    inp = make_input(darsia, rng, sk, shape, dtype)
-                    e = apply_case(darsia, name, copy.deepcopy(corr), neutral, sk, overwrite, inp)
-                    e["tid"] = f"{name}:{sk}:{int(overwrite)}:{rep}"
-                    e["dtype"] = dtype
-                    events.append(e)
+                    # every multi-axis payload also as a non-contiguous view of the caller's data (and one Fortran-ordered)
+                    layouts = ["C"] + (["moved"] if sk in ("series", "series-scalar", "optical", "array") else []) + (["F"] if rng.random() < 0.3 else [])
+                    for layout in layouts:
+                        dtype = rng.choice(["float64", "float32", "uint8"] if name.startswith(("type", "colour")) else ["float64", "float32"])
+                        inp = make_input(darsia, rng, sk, shape, dtype, layout)
+                        e = apply_case(darsia, name, copy.deepcopy(corr), neutral, sk, overwrite, inp)
+                        e["tid"] = f"{name}:{sk}:{int(overwrite)}:{layout}:{rep}"
+                        e["dtype"] = dtype
+                        e["layout"] = layout
+                        events.append(e)
     # corrections passed at image construction are applied in order
     for rep in range(2 if quick else 10):
         H, W = rng.randint(4, 6), rng.randint(4, 6)
